@@ -50,6 +50,16 @@ def gen_case(rng, maxops, big):
                 k = rng.weighted([("write", 10), ("close", 4), ("seek", 1), ("tell", 2), ("size", 3), ("reopen", 2)])
             else:
                 k = rng.weighted([("readall", 5), ("readstr", 4), ("readn", 5), ("close", 4), ("seek", 4), ("tell", 3), ("size", 4), ("reopen", 1)])
+            if rng.chance(1, 6):
+                # a second File user works on another file while this one stays open (33 switches between the two): File
+                # objects are independent of one another
+                n2 = rng.choice([x for x in range(4) if x != cur])
+                m2 = rng.choice([3, 4, 5, 6])
+                lines += [[33], [1, n2, m2], [3] + rand_bytes(rng, 200), [33]]
+                lines.append([3] + rand_bytes(rng, 200) if kind == "w" else [4, rng.choice([1, 7, 64])])
+                lines += [[33], [3] + rand_bytes(rng, 600), [9], [2], [33]]
+                if n2 not in dirs: files[n2] = True
+                continue
             if k == "reopen":
                 # open() on the File that is open: often the same path again, sometimes a directory or a missing file (the open fails
                 # and the old stream stays open)
@@ -125,7 +135,7 @@ class C17(Spec):
 
     def classify(self, lines):
         names = {"30": "mkdir", "31": "create file", "1": "open", "2": "close", "3": "write", "4": "read(buf)", "5": "read()",
-                 "6": "readStr()", "7": "seek", "8": "tell", "9": "size", "32": "symlink to a directory"}
+                 "6": "readStr()", "7": "seek", "8": "tell", "9": "size", "32": "symlink to a directory", "33": "switch to the other File user"}
         tags = set()
         for l in lines[1:]:
             t = l.split()
